@@ -10,18 +10,94 @@
     Help/Version argument and closes [Escape.trailing_no_display] ([display_not_from_tail]). *)
 From ClapModel Require Import Base.Bytes Base.Machine Base.Utf8 Lex.OsStrExtModel.
 From ClapModel Require Import Parse.Cmd Parse.Build Parse.Valid Parse.Matcher Parse.Errors Parse.Validator Parse.Parser.
-From ClapModel Require Import ParseProofs.Safe ParseProofs.Invariant ParseProofs.Totality ParseProofs.TotalityMain ParseProofs.Spelling ParseProofs.ActionsLoop ParseProofs.Escape.
+From ClapModel Require Import ParseProofs.Safe ParseProofs.Invariant ParseProofs.Totality ParseProofs.TotalityMain ParseProofs.Spelling ParseProofs.ActionsLoop ParseProofs.Dispatch ParseProofs.Escape.
 From Coq Require Import ZArith Lia List Bool.
 From RecordUpdate Require Import RecordSet.
 Import RecordSetNotations.
 Import ListNotations.
 Open Scope N_scope.
 
+
+(** * The flag/option parsers never touch the recorded subcommand *)
+Section KeepSubLoop.
+Variable c : cmd.
+Variable s : option (bytes * matches).
+Notation S_ := (Dispatch.S_ s).
+
+Lemma push_sub m i idn tr v m1 : pending_values_push m i idn tr v = Some m1 -> mt_sub m1 = mt_sub m.
+Proof.
+  unfold pending_values_push. destruct (negb _); [discriminate|]. destruct (_ && _); [discriminate|].
+  intros H. injection H as <-. reflexivity.
+Qed.
+
+Lemma parse_opt_value_sub idn att a he st : S_ st ->
+  holds (fun x => S_ (fst x)) S_ (parse_opt_value c idn att a he st).
+Proof.
+  intros Hs. unfold parse_opt_value. destruct (a_req_eq a && negb he).
+  - eapply holds_bind; [apply holds_expect; intros; exact I|]. intros r _.
+    destruct (vmin r =? 0); [|exact Hs].
+    eapply holds_bind; [apply react_sub; exact Hs|]. intros x Hx. exact Hx.
+  - destruct att as [v|].
+    + eapply holds_bind; [apply react_sub; exact Hs|]. intros x Hx. exact Hx.
+    + eapply holds_bind; [apply resolve_pending_sub; exact Hs|]. intros st1 H1.
+      destruct (pending_values_push (mt st1) (a_id a) (Some idn) false None) as [m|] eqn:Ep; cbn [expect rbind holds]; [|exact I].
+      unfold Dispatch.S_. cbn. rewrite (push_sub _ _ _ _ _ _ Ep). exact H1.
+Qed.
+
+Lemma parse_long_arg_sub f ok v pst pc vaf st : S_ st ->
+  holds (fun x => S_ (fst (fst x))) S_ (parse_long_arg c f ok v pst pc vaf st).
+Proof.
+  intros Hs. unfold parse_long_arg.
+  destruct (state_arg c pst) as [sa|e0 s0|n0] eqn:Esa; cbn [rbind holds]; [| |exact I].
+  2:{ exfalso. destruct pst as [|i|i]; cbn [state_arg] in Esa; try discriminate;
+        (destruct (find_arg c i); cbn [expect rbind] in Esa; discriminate). }
+  destruct (match sa with Some a => a_hyphen a | None => false end); [exact Hs|].
+  destruct (negb ok); [exact Hs|].
+  destruct (is_nil f && negb (is_some v)); [exact I|].
+  match goal with |- holds _ _ (match ?fd with Some _ => _ | None => _ end) => destruct fd as [a|] end.
+  - destruct (a_takes_value a).
+    + eapply holds_bind; [apply parse_opt_value_sub; exact Hs|]. intros x Hx. exact Hx.
+    + destruct v as [rest|]; [exact Hs|].
+      eapply holds_bind; [apply react_sub; exact Hs|]. intros x Hx. exact Hx.
+  - destruct (possible_long_flag_subcommand c f); [exact Hs|].
+    destruct (match get_pos c pc with Some a => a_hyphen a && negb (a_last a) | None => false end); exact Hs.
+Qed.
+
+Lemma short_loop_sub : forall fuel r ret vaf st, S_ st ->
+  holds (fun x => S_ (fst (fst x))) S_ (short_loop c fuel r ret vaf st).
+Proof.
+  induction fuel as [|f IH]; intros r ret vaf st Hs; cbn [short_loop]; [exact I|].
+  destruct (sf_next r) as [[[ch|rest] r']|]; [|exact Hs|exact Hs].
+  destruct (get_short c ch) as [a|].
+  - destruct (negb (a_takes_value a)).
+    + eapply holds_bind; [apply react_sub; exact Hs|]. intros x Hx. apply IH. exact Hx.
+    + match goal with |- holds _ _ (let '(val, has_eq) := ?t in _) => destruct t as [val' he'] end.
+      eapply holds_bind; [apply parse_opt_value_sub; exact Hs|]. intros [st1 pr] Hx. cbn [fst snd] in *.
+      destruct pr; try exact Hx. apply IH. exact Hx.
+  - destruct (find_short_subcmd c ch); [|exact Hs].
+    eapply holds_bind; [apply resolve_pending_sub; exact Hs|]. intros st1 H1. exact H1.
+Qed.
+
+Lemma parse_short_arg_sub r pst pc vaf st : S_ st ->
+  holds (fun x => S_ (fst (fst x))) S_ (parse_short_arg c r pst pc vaf st).
+Proof.
+  intros Hs. unfold parse_short_arg.
+  destruct (state_arg c pst) as [sa|e0 s0|n0] eqn:Esa; cbn [rbind holds]; [| |exact I].
+  2:{ exfalso. destruct pst as [|i|i]; cbn [state_arg] in Esa; try discriminate;
+        (destruct (find_arg c i); cbn [expect rbind] in Esa; discriminate). }
+  destruct (match sa with Some a => a_hyphen a || (a_negnum a && sf_is_negative_number r) | None => false end); [exact Hs|].
+  destruct (match get_pos c pc with Some a => a_negnum a | None => false end && sf_is_negative_number r); [exact Hs|].
+  destruct (match get_pos c pc with Some a => a_hyphen a && negb (a_last a) | None => false end
+            && sf_any_unknown c (S (length r)) r); [exact Hs|].
+  eapply holds_bind; [apply holds_expect; intros; exact I|]. intros r0 _.
+  apply short_loop_sub. exact Hs.
+Qed.
+End KeepSubLoop.
+
 Section Walk.
 Variable c : cmd.
 Hypothesis W3 : forall a, In a (c_args c) -> find_arg c (a_id a) = Some a.
 Hypothesis WP : forall a, In a (c_args c) -> a_index a <> None -> a_takes_value a = true.
-Hypothesis W5 : forall a, In a (c_args c) -> a_is_positional a = true -> a_index a <> None.
 
 Definition takes_id (i : id) : Prop := forall a, find_arg c i = Some a -> a_takes_value a = true.
 Definition ti_ok (p : pending) : Prop := forall k, p_trailing_idx p = Some k -> k <= N.of_nat (length (p_raw p)).
@@ -81,12 +157,6 @@ Proof.
       intros H. injection H as <-. cbn [fst snd]. split.
       * eapply push_TV; [exact Ep|apply TV_none; eapply resolve_pending_clears; exact E|apply takes_id_arg; assumption].
       * intros i Hi. injection Hi as <-. apply takes_id_arg; assumption.
-Qed.
-
-Lemma nonpos_of_index_none' a : In a (c_args c) -> a_index a = None -> a_is_positional a = false.
-Proof.
-  intros Hin Hi. destruct (a_is_positional a) eqn:E; [|reflexivity].
-  exfalso. apply (W5 a Hin E). exact Hi.
 Qed.
 
 Lemma parse_long_arg_TV f ok v pst pc vaf st x :
@@ -224,7 +294,8 @@ Proof.
 Qed.
 
 Definition good (ls : lstate) (st : ps) (ls' : lstate) (st' : ps) : Prop :=
-  TV st' /\ LTV ls' /\ (l_trailing ls = true -> l_trailing ls' = true) /\ (sticky = true -> l_pos ls' = l_pos ls).
+  TV st' /\ LTV ls' /\ (l_trailing ls = true -> l_trailing ls' = true) /\ (sticky = true -> l_pos ls' = l_pos ls)
+  /\ mt_sub (mt st') = mt_sub (mt st).
 
 Inductive ssim (tok : bytes) (r1 r2 : list bytes) (ls : lstate) (st : ps) : res loop_res -> res loop_res -> Prop :=
 | SS_cont : forall ls' st', good ls st ls' st' -> ssim tok r1 r2 ls st (parse_loop c r1 ls' st') (parse_loop c r2 ls' st')
@@ -241,7 +312,7 @@ Proof. unfold resolve_pending_ignore. destruct (resolve_pending c st); eauto. Qe
 (** the positional part of an iteration *)
 Lemma pos_part_sim tok r1 r2 ls0 st0 pc vaf tr st :
   hd_error r1 = hd_error r2 -> TV st ->
-  (l_trailing ls0 = true -> tr = true) -> l_pos ls0 = pc ->
+  (l_trailing ls0 = true -> tr = true) -> l_pos ls0 = pc -> mt_sub (mt st) = mt_sub (mt st0) ->
   let body := fun rest =>
         do pc' <- pos_counter tr pc vaf rest;
         match get_pos c pc' with
@@ -270,7 +341,7 @@ Lemma pos_part_sim tok r1 r2 ls0 st0 pc vaf tr st :
         end in
   ssim tok r1 r2 ls0 st0 (body r1) (body r2).
 Proof.
-  intros Hhd HTV Hls0 Hls0' body. subst body. cbv beta.
+  intros Hhd HTV Hls0 Hls0' Hsub0 body. subst body. cbv beta.
   rewrite (pos_counter_hd tr pc vaf r1 r2 Hhd).
   destruct (pos_counter tr pc vaf r2) as [pc'|e0 s0|n0] eqn:Epc; cbn [rbind]; [|constructor|constructor].
   destruct (get_pos c pc') as [a|] eqn:Eg.
@@ -281,29 +352,34 @@ Proof.
     cbv zeta.
     match goal with |- context [rbind (if ?b then resolve_pending c st else ROk st) _] =>
       destruct (if b then resolve_pending c st else ROk st) as [st1|e0 s0|n0] eqn:Ef end; cbn [rbind]; [|constructor|constructor].
-    assert (HTV1 : TV st1).
+    assert (HTV1 : TV st1 /\ mt_sub (mt st1) = mt_sub (mt st0)).
     { match type of Ef with (if ?b then _ else _) = _ => destruct b end.
-      - apply TV_none. eapply resolve_pending_clears. exact Ef.
-      - injection Ef as <-. exact HTV. }
+      - split; [apply TV_none; eapply resolve_pending_clears; exact Ef|].
+        pose proof (resolve_pending_sub c (mt_sub (mt st)) st eq_refl) as Hk. rewrite Ef in Hk. cbn in Hk.
+        unfold Dispatch.S_ in Hk. congruence.
+      - injection Ef as <-. split; [exact HTV|exact Hsub0]. }
+    destruct HTV1 as [HTV1 Hsub1].
     assert (Hpos : forall pst' q, (sticky = true -> q = pc) ->
               (forall i, pst' = PSOpt i -> False) ->
-              forall st', TV st' -> good ls0 st0 (mkL pst' q true (tr || a_tva a)) st').
-    { intros pst' q Hq Hpst st' HTV'. split; [exact HTV'|]. split; [intros i Hi; cbn in Hi; exfalso; eapply Hpst; exact Hi|].
+              forall st', TV st' -> mt_sub (mt st') = mt_sub (mt st0) -> good ls0 st0 (mkL pst' q true (tr || a_tva a)) st').
+    { intros pst' q Hq Hpst st' HTV' Hsub'. split; [exact HTV'|]. split; [intros i Hi; cbn in Hi; exfalso; eapply Hpst; exact Hi|].
       cbn [l_trailing l_pos]. split; [intros Htr; rewrite (Hls0 Htr); reflexivity|].
-      intros Hs. rewrite Hls0'. apply Hq. exact Hs. }
+      split; [|exact Hsub']. intros Hs. rewrite Hls0'. apply Hq. exact Hs. }
     assert (Hpc : sticky = true -> pc' = pc).
     { intros Hs. rewrite (pos_counter_sticky tr pc vaf r2 Hs) in Epc. injection Epc as <-. reflexivity. }
     destruct (check_terminator a tok) eqn:Ect.
-    { apply SS_cont. apply Hpos; [|discriminate|exact HTV1].
+    { apply SS_cont. apply Hpos; [|discriminate|exact HTV1|exact Hsub1].
       intros Hs. exfalso. destruct (sticky_pos _ _ Hs Eg) as [_ Hterm].
       unfold check_terminator in Ect. rewrite Hterm in Ect. discriminate. }
     destruct (pending_values_push (mt st1) (a_id a) (Some IIndex) (tr || a_tva a) (Some tok)) as [m1|] eqn:Ep;
       cbn [expect rbind]; [|constructor].
     pose proof (push_TV _ _ _ _ _ _ Ep HTV1 Hta) as HTV2.
+    assert (Hsub2 : mt_sub (mt (st1 <| mt := m1 |>)) = mt_sub (mt st0)).
+    { change (mt (st1 <| mt := m1 |>)) with m1. rewrite (push_sub _ _ _ _ _ _ Ep). exact Hsub1. }
     destruct (negb (a_is_multiple a)) eqn:Em.
-    + apply SS_cont. apply Hpos; [|discriminate|exact HTV2].
+    + apply SS_cont. apply Hpos; [|discriminate|exact HTV2|exact Hsub2].
       intros Hs. exfalso. destruct (sticky_pos _ _ Hs Eg) as [Hm _]. rewrite Hm in Em. discriminate.
-    + apply SS_cont. apply Hpos; [exact Hpc|discriminate|exact HTV2].
+    + apply SS_cont. apply Hpos; [exact Hpc|discriminate|exact HTV2|exact Hsub2].
   - destruct (is_set s_allow_external c).
     + destruct (utf8_valid tok); [constructor|].
       destruct (rpi_cases st) as [[s ->]|[x ->]]; cbn [rbind]; constructor.
@@ -319,17 +395,18 @@ Proof.
 Qed.
 
 Lemma good_flag pst pc vaf st pst' vaf1 st1 :
-  TV st1 -> (forall i, pst' = PSOpt i -> takes_id i) -> good (mkL pst pc vaf false) st (mkL pst' pc vaf1 false) st1.
+  TV st1 -> (forall i, pst' = PSOpt i -> takes_id i) -> mt_sub (mt st1) = mt_sub (mt st) ->
+  good (mkL pst pc vaf false) st (mkL pst' pc vaf1 false) st1.
 Proof.
-  intros H1 H2. split; [exact H1|]. split; [intros i Hi; apply H2; exact Hi|].
-  split; [discriminate|reflexivity].
+  intros H1 H2 H3. split; [exact H1|]. split; [intros i Hi; apply H2; exact Hi|].
+  split; [discriminate|]. split; [reflexivity|exact H3].
 Qed.
 
 Inductive ph1sim (tok : bytes) (r1 r2 : list bytes) (ls : lstate) (st : ps) :
   res (option (res loop_res) * lstate * ps) -> res (option (res loop_res) * lstate * ps) -> Prop :=
 | P1_early : forall e1 e2 lsx stx, ssim tok r1 r2 ls st e1 e2 ->
     ph1sim tok r1 r2 ls st (ROk (Some e1, lsx, stx)) (ROk (Some e2, lsx, stx))
-| P1_none : forall vaf1 st1, TV st1 ->
+| P1_none : forall vaf1 st1, TV st1 -> mt_sub (mt st1) = mt_sub (mt st) ->
     ph1sim tok r1 r2 ls st (ROk (None, mkL (l_pst ls) (l_pos ls) vaf1 (l_trailing ls), st1))
                            (ROk (None, mkL (l_pst ls) (l_pos ls) vaf1 (l_trailing ls), st1))
 | P1_err : forall e s, ph1sim tok r1 r2 ls st (RErr e s) (RErr e s)
@@ -343,65 +420,72 @@ Proof.
   cbn [parse_loop l_pst l_pos l_vaf l_trailing].
   match goal with |- ssim _ _ _ _ _ (rbind ?p1 _) (rbind ?p2 _) =>
     assert (Hph : ph1sim tok r1 r2 (mkL pst pc vaf tr) st p1 p2) end.
-  { destruct tr; [apply (P1_none tok r1 r2 (mkL pst pc vaf true) st vaf st HTV)|].
+  { destruct tr; [apply (P1_none tok r1 r2 (mkL pst pc vaf true) st vaf st HTV eq_refl)|].
     match goal with |- context [match (if ?b then possible_subcommand c tok vaf else None) with _ => _ end] =>
       destruct (if b then possible_subcommand c tok vaf else None) as [sc|] end.
     { destruct (beq sc s_help && negb (is_set s_disable_help_sub c)); apply P1_early; constructor. }
     destruct (is_escape tok).
     { destruct (state_arg c pst) as [sa|e0 s0|n0]; cbn [rbind]; [|constructor|constructor].
       destruct (match sa with Some a => a_hyphen a | None => false end).
-      - apply (P1_none tok r1 r2 (mkL pst pc vaf false) st vaf st HTV).
+      - apply (P1_none tok r1 r2 (mkL pst pc vaf false) st vaf st HTV eq_refl).
       - apply P1_early. apply SS_cont. split; [apply TV_start_trailing; exact HTV|].
-        split; [exact HLTV|]. split; reflexivity. }
+        split; [exact HLTV|]. split; [reflexivity|]. split; [reflexivity|].
+        change (mt (st <| mt := start_trailing (mt st) |>)) with (start_trailing (mt st)).
+        unfold start_trailing. destruct (mt_pending (mt st)); reflexivity. }
     destruct (to_long tok) as [[[f ok] v]|].
     { destruct (parse_long_arg c f ok v pst pc vaf st) as [[[st1 pr] vaf1]|e0 s0|n0] eqn:El;
         cbn [rbind fst snd]; [|constructor|constructor].
       destruct (parse_long_arg_TV _ _ _ _ _ _ _ _ HTV El) as [H1 H2]. cbn [fst snd] in H1, H2.
+      pose proof (parse_long_arg_sub c (mt_sub (mt st)) f ok v pst pc vaf st eq_refl) as H3.
+      rewrite El in H3. cbn [holds fst] in H3. unfold Dispatch.S_ in H3.
       destruct pr; cbn [fst snd].
       all: first [ apply P1_panic
-                 | apply (P1_none tok r1 r2 (mkL pst pc vaf false) st _ _ H1)
-                 | apply P1_early; first [apply SS_sub | apply SS_cont; apply good_flag; [exact H1|intros j Hj; first [discriminate Hj|injection Hj as <-; apply (H2 _ eq_refl)]]]
+                 | apply (P1_none tok r1 r2 (mkL pst pc vaf false) st _ _ H1 H3)
+                 | apply P1_early; first [apply SS_sub | apply SS_cont; apply good_flag; [exact H1|intros j Hj; first [discriminate Hj|injection Hj as <-; apply (H2 _ eq_refl)]|exact H3]]
                  | (match goal with |- context [resolve_pending_ignore c ?s] =>
                       destruct (rpi_cases s) as [[? ->]|[? ->]]; cbn [rbind] end;
                     [apply P1_early; apply SS_err|apply P1_panic]) ]. }
-    destruct (to_short tok) as [r|]; [|apply (P1_none tok r1 r2 (mkL pst pc vaf false) st vaf st HTV)].
+    destruct (to_short tok) as [r|]; [|apply (P1_none tok r1 r2 (mkL pst pc vaf false) st vaf st HTV eq_refl)].
     destruct (parse_short_arg c r pst pc vaf st) as [[[st1 pr] vaf1]|e0 s0|n0] eqn:El;
       cbn [rbind fst snd]; [|constructor|constructor].
     destruct (parse_short_arg_TV _ _ _ _ _ _ HTV El) as [H1 H2]. cbn [fst snd] in H1, H2.
+    pose proof (parse_short_arg_sub c (mt_sub (mt st)) r pst pc vaf st eq_refl) as H3.
+    rewrite El in H3. cbn [holds fst] in H3. unfold Dispatch.S_ in H3.
     destruct pr; cbn [fst snd].
     1: { destruct (fs_at st1) as [at_|]; [|apply P1_early; apply SS_sub].
          destruct (checked_sub (cur_idx st1) at_) as [d|]; cbn [expect rbind]; [|apply P1_panic].
          apply P1_early. apply SS_subk. }
     all: first [ apply P1_panic
-               | apply (P1_none tok r1 r2 (mkL pst pc vaf false) st _ _ H1)
-               | apply P1_early; first [apply SS_sub | apply SS_cont; apply good_flag; [exact H1|intros j Hj; first [discriminate Hj|injection Hj as <-; apply (H2 _ eq_refl)]]]
+               | apply (P1_none tok r1 r2 (mkL pst pc vaf false) st _ _ H1 H3)
+               | apply P1_early; first [apply SS_sub | apply SS_cont; apply good_flag; [exact H1|intros j Hj; first [discriminate Hj|injection Hj as <-; apply (H2 _ eq_refl)]|exact H3]]
                | (match goal with |- context [resolve_pending_ignore c ?s] =>
                     destruct (rpi_cases s) as [[? ->]|[? ->]]; cbn [rbind] end;
                   [apply P1_early; apply SS_err|apply P1_panic]) ]. }
-  destruct Hph as [e1 e2 lsx stx He|vaf1 st1 H1|e0 s0|x0]; cbn [rbind]; [exact He| |constructor|constructor].
+  destruct Hph as [e1 e2 lsx stx He|vaf1 st1 H1 H3|e0 s0|x0]; cbn [rbind]; [exact He| |constructor|constructor].
   cbn [l_pst l_pos l_vaf l_trailing].
   assert (Hpos := pos_part_sim tok r1 r2 (mkL pst pc vaf tr) st pc vaf1 tr st1 Hhd H1).
   cbv zeta in Hpos. cbn [l_trailing l_pos] in Hpos.
-  specialize (Hpos (fun H => H) eq_refl).
+  specialize (Hpos (fun H => H) eq_refl H3).
   destruct (if tr then PSValuesDone else pst) as [|i|i] eqn:Est; [exact Hpos| |exact Hpos].
   assert (tr = false /\ pst = PSOpt i) as [-> ->] by (destruct tr; [discriminate|split; [reflexivity|exact Est]]).
   destruct (find_arg c i) as [a|] eqn:Ef; cbn [expect rbind]; [|constructor].
   assert (Hti : takes_id i) by (apply (HLTV i); reflexivity).
   destruct (check_terminator a tok).
-  { apply SS_cont. apply good_flag; [exact H1|discriminate]. }
+  { apply SS_cont. apply good_flag; [exact H1|discriminate|exact H3]. }
   destruct (pending_values_push (mt st1) i None false (Some tok)) as [m1|] eqn:Ep; cbn [expect rbind]; [|constructor].
   destruct (needs_more_vals m1 a) as [more|]; cbn [expect rbind]; [|constructor].
-  apply SS_cont. apply good_flag; [eapply push_TV; eassumption|].
-  intros j Hj. destruct more; [injection Hj as <-; exact Hti|discriminate].
+  apply SS_cont. apply good_flag; [eapply push_TV; eassumption| |].
+  - intros j Hj. destruct more; [injection Hj as <-; exact Hti|discriminate].
+  - change (mt (st1 <| mt := m1 |>)) with m1. rewrite (push_sub _ _ _ _ _ _ Ep). exact H3.
 Qed.
 
 Lemma good_refl ls st : TV st -> LTV ls -> good ls st ls st.
-Proof. intros H1 H2. split; [exact H1|]. split; [exact H2|]. split; [intros H; exact H|reflexivity]. Qed.
+Proof. intros H1 H2. split; [exact H1|]. split; [exact H2|]. split; [intros H; exact H|]. split; reflexivity. Qed.
 
 Lemma good_trans ls st ls1 st1 ls2 st2 : good ls st ls1 st1 -> good ls1 st1 ls2 st2 -> good ls st ls2 st2.
 Proof.
-  intros (_ & _ & A3 & A4) (B1 & B2 & B3 & B4). split; [exact B1|]. split; [exact B2|].
-  split; [intros H; apply B3, A3, H|]. intros Hs. rewrite (B4 Hs). apply A4. exact Hs.
+  intros (_ & _ & A3 & A4 & A5) (B1 & B2 & B3 & B4 & B5). split; [exact B1|]. split; [exact B2|].
+  split; [intros H; apply B3, A3, H|]. split; [|congruence]. intros Hs. rewrite (B4 Hs). apply A4. exact Hs.
 Qed.
 
 (** * The prefix of the line: the loop over [pre ++ s] reaches [s] in a state that does not depend on
@@ -426,12 +510,12 @@ Proof.
     remember (parse_loop c (tok :: pre ++ s1) ls st) as R1 eqn:E1.
     remember (parse_loop c (tok :: pre ++ s2) ls st) as R2 eqn:E2.
     destruct Hs as [ls' st' Hg|e st'|x|n v st'|n v st'|st'|st'].
-    + destruct Hg as (G1 & G2 & G3 & G4).
+    + destruct Hg as (G1 & G2 & G3 & G4 & G5).
       pose proof (IH s1 s2 ls' st' Hhd G1 G2) as Hi.
       remember (parse_loop c (pre ++ s1) ls' st') as Q1 eqn:F1.
       remember (parse_loop c (pre ++ s2) ls' st') as Q2 eqn:F2.
       destruct Hi as [ls2 st2 Hg2|e st2|x|n k v st2 r|r st2|tk r st2].
-      * apply PS_cont. eapply good_trans; [exact (conj G1 (conj G2 (conj G3 G4)))|exact Hg2].
+      * apply PS_cont. eapply good_trans; [exact (conj G1 (conj G2 (conj G3 (conj G4 G5))))|exact Hg2].
       * apply PS_err.
       * apply PS_panic.
       * apply PS_sub.
@@ -478,6 +562,7 @@ Qed.
 (** the whole line [pre ++ -- :: t], for two tails *)
 Inductive esim (t1 t2 : list bytes) (ls : lstate) (st : ps) : res loop_res -> res loop_res -> Prop :=
 | ES_trailing : forall x ls' st', l_trailing ls' = true -> TV st' -> (sticky = true -> l_pos ls' = l_pos ls) ->
+    mt_sub (mt st') = mt_sub (mt st) ->
     esim t1 t2 ls st (parse_loop c (x ++ t1) ls' st') (parse_loop c (x ++ t2) ls' st')
 | ES_err : forall e st', esim t1 t2 ls st (RErr e st') (RErr e st')
 | ES_panic : forall x, esim t1 t2 ls st (RPanic x) (RPanic x)
@@ -496,17 +581,35 @@ Proof.
   remember (parse_loop c (pre ++ dashdash :: t1) ls st) as R1 eqn:E1.
   remember (parse_loop c (pre ++ dashdash :: t2) ls st) as R2 eqn:E2.
   destruct Hp as [ls' st' Hg|e st'|x|n k v st' r|r st'|tk r st'].
-  - destruct Hg as (G1 & G2 & G3 & G4).
+  - destruct Hg as (G1 & G2 & G3 & G4 & G5).
     destruct (l_trailing ls') eqn:Etr.
-    + apply (ES_trailing t1 t2 ls st [dashdash] ls' st' Etr G1 G4).
+    + apply (ES_trailing t1 t2 ls st [dashdash] ls' st' Etr G1 G4 G5).
     + destruct (escape_sim t1 t2 ls' st' Etr) as [[x [-> ->]]|[-> ->]]; [apply ES_panic|].
-      apply (ES_trailing t1 t2 ls st [] (esc_ls ls') (esc_st st')); [reflexivity|apply TV_start_trailing; exact G1|exact G4].
+      apply (ES_trailing t1 t2 ls st [] (esc_ls ls') (esc_st st')); [reflexivity|apply TV_start_trailing; exact G1|exact G4|].
+      rewrite <- G5. unfold esc_st. change (mt (st' <| mt := start_trailing (mt st') |>)) with (start_trailing (mt st')).
+      unfold start_trailing. destruct (mt_pending (mt st')); reflexivity.
   - apply ES_err.
   - apply ES_panic.
   - apply ES_sub.
   - apply ES_help.
   - apply ES_ext.
 Qed.
+
+(** the same for one line *)
+Inductive eone (t : list bytes) (ls : lstate) (st : ps) : res loop_res -> Prop :=
+| EO_trailing : forall x ls' st', l_trailing ls' = true -> TV st' -> (sticky = true -> l_pos ls' = l_pos ls) ->
+    mt_sub (mt st') = mt_sub (mt st) -> eone t ls st (parse_loop c (x ++ t) ls' st')
+| EO_err : forall e st', eone t ls st (RErr e st')
+| EO_panic : forall x, eone t ls st (RPanic x)
+| EO_sub : forall n k v st' r, eone t ls st (ROk (LSub n k v st' (r ++ dashdash :: t)))
+| EO_help : forall r st', eone t ls st (ROk (LHelpSub (r ++ dashdash :: t) st'))
+| EO_ext : forall tok r st', eone t ls st (ROk (LExternal tok (r ++ dashdash :: t) st')).
+
+Lemma esim_left t1 t2 ls st R1 R2 : esim t1 t2 ls st R1 R2 -> eone t1 ls st R1.
+Proof. destruct 1; constructor; assumption. Qed.
+
+Theorem escape_line_one pre t ls st : TV st -> LTV ls -> eone t ls st (parse_loop c (pre ++ dashdash :: t) ls st).
+Proof. intros H1 H2. exact (esim_left _ _ _ _ _ _ (escape_line_sim pre t t ls st H1 H2)). Qed.
 
 (** * No help/version outcome is caused by a token of the tail *)
 Hypothesis WD : forall a, In a (c_args c) -> display_action a = true -> a_takes_value a = false.
@@ -552,7 +655,7 @@ Proof.
   pose proof (escape_line_sim pre t t2 ls st HTV HLTV) as Hs.
   remember (parse_loop c (pre ++ dashdash :: t) ls st) as R1 eqn:E1.
   remember (parse_loop c (pre ++ dashdash :: t2) ls st) as R2 eqn:E2.
-  destruct Hs as [x ls' st1 Htr H1 _|e1 s1|x|n k v s1 r|r s1|tk r s1]; try discriminate E.
+  destruct Hs as [x ls' st1 Htr H1 _ _|e1 s1|x|n k v s1 r|r s1|tk r s1]; try discriminate E.
   - rewrite (trailing_no_display_TV _ _ _ _ _ Htr H1 E) in Hd. discriminate.
   - exact E.
 Qed.
@@ -562,12 +665,11 @@ End Walk.
 Definition lvl (c : cmd) : Prop :=
   (forall a, In a (c_args c) -> find_arg c (a_id a) = Some a)
   /\ (forall a, In a (c_args c) -> a_index a <> None -> a_takes_value a = true)
-  /\ (forall a, In a (c_args c) -> a_is_positional a = true -> a_index a <> None)
   /\ (forall a, In a (c_args c) -> display_action a = true -> a_takes_value a = false).
 
 Lemma lvl_of_wfc c : Totality.wfc c -> assert_app c = true -> lvl c.
 Proof.
-  intros (W1 & W2 & W3 & W4 & W5) Happ. split; [exact W3|]. split; [|split; [exact W5|]].
+  intros (W1 & W2 & W3 & W4 & W5) Happ. split; [exact W3|]. split.
   - intros a Hin Hidx. destruct (TotalityMain.assert_app_arg _ _ Happ Hin) as [Haa _].
     unfold assert_arg in Haa. repeat (apply andb_true_iff in Haa as [Haa ?]).
     match goal with Hi : (if is_some (a_index a) then _ else _) = true |- _ => rename Hi into HI end.
